@@ -4,7 +4,8 @@ CONSTANTS
   MaxOps = 5
   MaxW = 3
   Kinds <- KindsTP
-  Forces <- ForcesAll
+  Plans <- FreeBoth
+  Free = TRUE
   ReuseKeys = FALSE
   NoReinit = FALSE
   Hist = FALSE
